@@ -481,6 +481,13 @@ class Life:
                 if not live:
                     self.c("runner_all_complete")
 
+    def _cfg_limit(self, st, name):
+        """the limit as CONFIGURED for the run (a value of 0 is a limit), not what the strategy object made of it"""
+        cfg = getattr(self, "skw", None) or {}
+        if name in cfg and cfg[name] is not None:
+            return cfg[name]
+        return getattr(st, name)
+
     def _c10_decision(self, w, st, market, act, o, out):
         """c) an accepted placement respects max_trade_count / max_live_trade_count / cool-downs, judged from
         the real state of the orders; d) no lock-out once every order on the runner is complete."""
@@ -516,11 +523,11 @@ class Life:
                 new_trade = not any(t is y for y in placed_trades)
                 n_tr = len(placed_trades) + (1 if new_trade else 0)
                 # only a placement that ADDS a trade can breach the count (forced placements skip the controls)
-                if new_trade and n_tr > st.max_trade_count:
-                    self.v("C10.c", ("limit", "max_trade_count", ev), "placement accepted: %d distinct trades > max_trade_count %s" % (n_tr, st.max_trade_count))
+                if new_trade and n_tr > self._cfg_limit(st, "max_trade_count"):
+                    self.v("C10.c", ("limit", "max_trade_count", ev), "placement accepted: %d distinct trades > max_trade_count %s" % (n_tr, self._cfg_limit(st, "max_trade_count")))
                 n_live = len(live_trades) + (0 if same_live else 1)
-                if not same_live and n_live > st.max_live_trade_count:
-                    self.v("C10.c", ("limit", "max_live_trade_count", ev), "placement accepted: %d live trades > max_live_trade_count %s" % (n_live, st.max_live_trade_count))
+                if not same_live and n_live > self._cfg_limit(st, "max_live_trade_count"):
+                    self.v("C10.c", ("limit", "max_live_trade_count", ev), "placement accepted: %d live trades > max_live_trade_count %s" % (n_live, self._cfg_limit(st, "max_live_trade_count")))
                 if not multi_exempt:
                     if last_placed is not None and (now - last_placed).total_seconds() < t.place_reset_seconds:
                         self.v("C10.c", ("cool-down", "place_reset_seconds", ev), "placement accepted %.3fs after the previous one (place_reset_seconds %s)" % ((now - last_placed).total_seconds(), t.place_reset_seconds))
@@ -535,8 +542,8 @@ class Life:
                 self.c("refused_by_accounting")
                 all_complete = all(x.complete for x in others)
                 cool = (last_placed is None or (now - last_placed).total_seconds() >= t.place_reset_seconds) and (last_comp is None or (now - last_comp).total_seconds() >= t.reset_seconds)
-                room = (len(placed_trades) < st.max_trade_count) or any(t is y for y in placed_trades)
-                if all_complete and cool and room and st.max_live_trade_count >= 1:
+                room = (len(placed_trades) < self._cfg_limit(st, "max_trade_count")) or any(t is y for y in placed_trades)
+                if all_complete and cool and room and self._cfg_limit(st, "max_live_trade_count") >= 1:
                     self.v("C10.d", ("lock-out", msg.split("failed:")[1].split("(")[0].strip() if "failed:" in msg else "-", ev), "placement refused although every order on the runner is complete: %s" % msg)
 
     # -- C15 blotter coherence (end of tick)
